@@ -7,12 +7,22 @@ import json, subprocess, sys, os, glob
 REPO='/repo'
 def sh(cmd, **kw): return subprocess.run(cmd, shell=True, capture_output=True, text=True, **kw)
 def main():
+    global REPO
     only = sys.argv[1:]
+    env=''
+    if '--scratch' in only:
+        # work on a throw-away copy so that /repo and /verif/evidence stay untouched (safe to run beside other checks)
+        only.remove('--scratch')
+        REPO='/tmp/kvc_selftest_repo_%d'%os.getpid()
+        out='/tmp/kvc_selftest_out_%d'%os.getpid()
+        sh('rsync -a --exclude .git /repo/ %s/ && mkdir -p %s && cp /verif/known_findings.json %s/'%(REPO,out,out))
+        env='KVC_REPO=%s KVC_VERIF=%s '%(REPO,out)
+        import atexit; atexit.register(lambda: sh('rm -rf %s %s'%(REPO,out)))
     entries=[]
     for f in sorted(glob.glob('/verif/selftest/*.json')):
         entries += json.load(open(f))
     bad=0; n=0
-    if sh('git -C /repo status --porcelain --untracked-files=no').stdout.strip():
+    if not env and sh('git -C /repo status --porcelain --untracked-files=no').stdout.strip():
         print('refusing: /repo has uncommitted changes to tracked files'); return 2
     for e in entries:
         if only and not any(o in e['name'] or o==e['prop'] for o in only): continue
@@ -23,10 +33,10 @@ def main():
             print('STALE  %-8s %s: text to replace not found'%(e['prop'],e['name'])); bad+=1; continue
         try:
             open(path,'w').write(src.replace(e['old'],e['new'],1))
-            b=sh('cd /repo && go build ./%s/'%os.path.dirname(e['file']))
+            b=sh('cd %s && go build ./%s/'%(REPO,os.path.dirname(e['file'])))
             if b.returncode!=0:
                 print('NOBUILD %-8s %s: %s'%(e['prop'],e['name'],b.stderr[:200])); bad+=1; continue
-            r=sh('cd /verif && ./check %s --tier quick'%e['prop'])
+            r=sh('cd /verif && %s./check %s --tier quick'%(env,e['prop']))
             viol=[l for l in r.stdout.splitlines() if l.startswith('VIOLATION')]
             failed = r.returncode!=0
             ok = (failed if e['expect']=='fail' else not failed)
